@@ -47,7 +47,9 @@ def run(ctx):
         elif pos == 'csv_group': c2['style'] = 'csv'; c2['select'] = c2['select'] or ['.a']; c2['group'] = rnd.choice(['.k', True])
         bad = mkcase('B%d' % i, c2, data); cases.append(bad); meta[bad['id']] = ('bad', fault)
     def proj(c, r, side):
-        return (lib.kind(r), r['stdout'], r['stdin_opened'] if side == 'impl' else r['stdin_opened'], (r['pulled'] if side == 'impl' else sum(r['pulled'])))
+        # bytes pulled are compared for rejected configurations only (must be none); how far a valid run reads ahead is C14's business
+        pulled = (r['pulled'] if side == 'impl' else sum(r['pulled'])) if lib.kind(r).startswith('err') else None
+        return (lib.kind(r), r['stdout'], r['stdin_opened'], pulled)
     impl, model, mism = common.correspond(cases, proj)
     violations = []; checked = 0; faults = {}
     for c in cases:
